@@ -535,7 +535,8 @@ def _main(mod, ctx: Ctx, args) -> int:
         "wall_s": round(wall, 2),
         "violations": len(unlisted) if unlisted else (len(open_breaks) if rc else 0),
     }
-    write_json(VERIF / "evidence" / f"{prop}.json", ev)
+    # seeded-change trials (tools/seeded_run_wt.sh) must not overwrite the evidence of the real tree
+    write_json(VERIF / "evidence" / f"{prop}{os.environ.get('VERIF_EVIDENCE_SUFFIX', '')}.json", ev)
     for ln in lines:
         print(ln)
     print(f"[{prop}] tier={ctx.tier} seed={ctx.seed} obligations={discharged}/{obligations} evaluations={ctx.evaluations} nontrivial={len(ctx.nontrivial_keys)} breaks={len(ctx.breaks)} violations={len(ctx.violations)} (unlisted {len(unlisted)}) wall={wall:.1f}s -> exit {rc}")
